@@ -94,6 +94,8 @@ def rx(e, top=False):
         return "None"
     if k == "var":
         return e[2]
+    if k == "tup":
+        return "(%s)" % ", ".join(rx(x, True) for x in e[2])
     if k == "bin":
         s = "%s %s %s" % (rx(e[3]), e[2], rx(e[4]))
     elif k == "cmp":
@@ -272,6 +274,8 @@ def pat_str(pat):
         return lit_str(pat[1], pat[2])
     if pat[0] == "bind":
         return pat[1]
+    if pat[0] == "ptup":
+        return "(%s)" % ", ".join(pat_str(x) for x in pat[1])
     return "_"
 
 
@@ -479,6 +483,8 @@ class Interp:
             return None
         if k == "var":
             return env.get(e[2])
+        if k == "tup":
+            return tuple(self.ev(x, env) for x in e[2])
         if k == "bin":
             a, b = self.ev(e[3], env), self.ev(e[4], env)
             op = e[2]
@@ -593,9 +599,18 @@ class Interp:
             raise Unsupported("printing a set with several elements")
         return str(v)
 
+    def note_arm(self, arms, n):
+        """which arm of a match with tuple patterns was taken"""
+        if any(a[0][0] == "ptup" for a in arms):
+            self.tick("match_tuple_patterns")
+            if any(a[0][0] == "ptup" and any(q[0] == "wild" for q in a[0][1]) for a in arms[:n]):
+                self.tick("match_arm_after_tuple_pattern_with_wildcard")
+
     def pat_matches(self, pat, v):
         if pat[0] == "lit":
             return type(pat[2]) is type(v) and pat[2] == v
+        if pat[0] == "ptup":
+            return isinstance(v, tuple) and len(v) == len(pat[1]) and all(self.pat_matches(q, x) for q, x in zip(pat[1], v))
         return True
 
     def find_method(self, cname, mname):
@@ -673,8 +688,9 @@ class Interp:
             _, e, arms = tail
             self.tick("match_tail")
             v = self.ev(e, env)
-            for pat, (body, t) in arms:
+            for n, (pat, (body, t)) in enumerate(arms):
                 if self.pat_matches(pat, v):
+                    self.note_arm(arms, n)
                     env2 = Env(env)
                     if pat[0] == "bind":
                         env2.define(pat[1], v)
@@ -775,8 +791,9 @@ class Interp:
         elif k == "match":
             self.tick("match")
             v = self.ev(s[1], env)
-            for pat, body in s[2]:
+            for n, (pat, body) in enumerate(s[2]):
                 if self.pat_matches(pat, v):
+                    self.note_arm(s[2], n)
                     env2 = Env(env)
                     if pat[0] == "bind":
                         env2.define(pat[1], v)
